@@ -2,7 +2,7 @@
 C19 model: `etl::extents`, `layout_left/right/stride::mapping`, `linalg::layout_transpose`,
 `mdspan`/`mdarray` element access and `span::first/last/subspan`, mirrored clause by clause
 from include/etl/_mdspan/*.hpp, _linalg/layout_transpose.hpp, _mdarray/mdarray.hpp, _span/span.hpp
-(after the `fix:` commits of branches fix-c19 and fix-c19b).
+(after the `fix:` commits of branches fix-c19, fix-c19b and fix-c19x).
 
 Conventions
 * a static-extents pattern is `List (Option Nat)` (`none` = `dynamic_extent`);
@@ -135,26 +135,55 @@ def extEqLoop (t1 t2 : IdxT) (a b : Ext) : List Nat → Except Err Bool
 def Ext.eq (t1 t2 : IdxT) (a b : Ext) : Except Err Bool :=
   if a.pat.length ≠ b.pat.length then .ok false else extEqLoop t1 t2 a b (List.range a.pat.length)
 
-/-- `detail::submdspan_extents_builder::next` for slice specifiers that are `full_extent` (`true`: the dimension is kept
-    with its static extent, `ext.extent(k)` is appended to the constructor arguments) or an index (`false`: the dimension is
-    dropped); after the fix of branch fix-c19b the static extents are appended in order.  Index-pair slices with run-time
-    bounds and `strided_slice` do not compile (constructor arity / `static_assert`) and are not modelled. -/
-def subLoop (t : IdxT) (e : Ext) : List Nat → List Bool → Pat → List Int → Except Err (Pat × List Int)
-  | k :: ks, keep :: rest, p, v =>
-    if keep then do
-      let se ← rd e.pat k
-      let x ← e.extent t k
-      subLoop t e ks rest (p ++ [se]) (v ++ [x])
-    else subLoop t e ks rest p v
+/-! ## submdspan_extents -/
+
+/-- a slice specifier of `submdspan_extents` -/
+inductive Slice where
+  /-- `full_extent`: the dimension is kept with its static extent -/
+  | full
+  /-- an index (anything convertible to `size_t`): the dimension is dropped -/
+  | idx
+  /-- an index pair `[lo, hi)` (`etl::pair`, `etl::tuple`, `etl::array<_, 2>`); `static`: both members are integral
+      constants (`integral_constant_like`) -/
+  | pair (lo hi : Int) (static : Bool)
+  deriving Repr, DecidableEq
+
+/-- `detail::submdspan_static_extent<K, Extents, Sk>()` for an index pair (after the fixes of branch fix-c19x: return type
+    `size_t` in every branch, no dependence on the static extent of the sliced dimension): `last - first` when both are
+    integral constants, else `dynamic_extent`.  For `full_extent` it is `Extents::static_extent(k)`.  `strided_slice` is a
+    `static_assert` in `submdspan_extents_builder::next` (not provided by the library). -/
+def pairStaticExtent (lo hi : Int) (static : Bool) : Option Nat :=
+  if static then some (sz (hi - lo)).toNat else none        -- `static_cast<size_t>(de_ice(second) - de_ice(first))`
+
+/-- `detail::submdspan_extents_builder::next`: `full_extent` appends `Extents::static_extent(k)` and the value
+    `ext.extent(k)`; an index drops the dimension; an index pair appends `pairStaticExtent` and the value
+    `static_cast<index_type>(static_cast<index_type>(get<1>(slice)) - static_cast<index_type>(get<0>(slice)))`
+    (fix of branch fix-c19x: before it no value was appended).  Static extents are appended in order (fix of branch
+    fix-c19b). -/
+def subLoop (t : IdxT) (e : Ext) : List Nat → List Slice → Pat → List Int → Except Err (Pat × List Int)
+  | k :: ks, .full :: rest, p, v => do
+    let se ← rd e.pat k
+    let x ← e.extent t k
+    subLoop t e ks rest (p ++ [se]) (v ++ [x])
+  | _ :: ks, .idx :: rest, p, v => subLoop t e ks rest p v
+  | _ :: ks, .pair lo hi st :: rest, p, v =>
+    subLoop t e ks rest (p ++ [pairStaticExtent lo hi st]) (v ++ [t.wrap (t.wrap hi - t.wrap lo)])
   | _, _, p, v => .ok (p, v)
 
 /-- `submdspan_extents(ext, slices...)`: `extents<IndexType, NewStaticExtents...>(newExts...)` with one value per kept
     dimension (the `N == rank()` constructor); `sizeof...(slices) == rank()` is a `requires` clause -/
-def submdspanExtents (t : IdxT) (e : Ext) (keep : List Bool) : Except Err Ext :=
-  if keep.length ≠ e.pat.length then .error (.pre "arity")
+def submdspanExtentsS (t : IdxT) (e : Ext) (sl : List Slice) : Except Err Ext :=
+  if sl.length ≠ e.pat.length then .error (.pre "arity")
   else do
-    let (p, v) ← subLoop t e (List.range e.pat.length) keep [] []
+    let (p, v) ← subLoop t e (List.range e.pat.length) sl [] []
     Ext.ofVals t p v
+
+/-- `full_extent` (`true`) / index (`false`) slices only -/
+def Slice.ofKeep (b : Bool) : Slice := if b then .full else .idx
+
+/-- `submdspan_extents` with `full_extent` / index slices only (`keep`: `true` = `full_extent`) -/
+def submdspanExtents (t : IdxT) (e : Ext) (keep : List Bool) : Except Err Ext :=
+  submdspanExtentsS t e (keep.map Slice.ofKeep)
 
 /-- the product loops: `result *= static_cast<size_t>(extent(e))` for `e` in the given list -/
 def prodLoop (t : IdxT) (e : Ext) : List Nat → Int → Except Err Int
@@ -363,6 +392,56 @@ def TMap.stride (t : IdxT) (m : TMap) (r : Nat) : Except Err Int := do
     else C19.stride m.lay t m.nested r
   pure (t.toUnsigned.wrap s)
 
+/-! ## the observers `is_always_unique / is_always_exhaustive / is_always_strided / is_unique / is_exhaustive / is_strided` -/
+
+structure Obs where
+  alwaysUnique : Bool
+  alwaysExhaustive : Bool
+  alwaysStrided : Bool
+  unique : Bool
+  exhaustive : Bool
+  strided : Bool
+  deriving Repr, DecidableEq, BEq
+
+/-- `layout_left::mapping` / `layout_right::mapping`: six `return true` -/
+def contigObs (_ : Lay) : Obs := ⟨true, true, true, true, true, true⟩
+
+/-- `layout_stride::mapping`: `is_always_exhaustive` is `false`, `is_exhaustive()` is computed, the rest `return true` -/
+def StrideMap.obs (t : IdxT) (m : StrideMap) : Except Err Obs := do
+  let x ← m.isExhaustive t
+  pure ⟨true, false, true, true, x, true⟩
+
+/-- `layout_transpose<L>::mapping`: every observer forwards to the nested mapping -/
+def TMap.obs (m : TMap) : Obs := contigObs m.lay
+
+/-- `layout_transpose<layout_stride>::mapping<Extents>`: the nested strided mapping over the transposed extents -/
+structure TSMap where
+  nested : StrideMap
+  ext : Ext
+  deriving Repr
+
+def TSMap.make (t : IdxT) (nested : StrideMap) : Except Err TSMap := do
+  let e ← transposeExt t nested.ext
+  pure { nested := nested, ext := e }
+
+def TSMap.extents (m : TSMap) : Ext := m.ext
+def TSMap.reqSpan (t : IdxT) (m : TSMap) : Except Err Int := m.nested.reqSpan t
+
+/-- `operator()(i, j) = _nestedMapping(j, i)` converted to `size_type` -/
+def TSMap.mapIdx (t : IdxT) (m : TSMap) (i j : Int) : Except Err Int := do
+  let o ← m.nested.mapIdx t [j, i]
+  pure (t.toUnsigned.wrap o)
+
+/-- `stride(r)`: the two strides of the nested mapping swapped -/
+def TSMap.stride (t : IdxT) (m : TSMap) (r : Nat) : Except Err Int := do
+  let s ←
+    if r = 2 - 1 then m.nested.stride (r - 1)
+    else if r = 2 - 2 then m.nested.stride (r + 1)
+    else m.nested.stride r
+  pure (t.toUnsigned.wrap s)
+
+def TSMap.obs (t : IdxT) (m : TSMap) : Except Err Obs := m.nested.obs t
+
 /-! ## mdspan / mdarray element access -/
 
 /-- `mdspan::operator()(indices...)` with `default_accessor`: `p[static_cast<size_t>(map(index_cast(i)...))]`.
@@ -382,6 +461,16 @@ def mdspanAtT {α : Type} (t : IdxT) (m : TMap) (buf : List α) (i j : Int) : Ex
   let o ← m.mapIdx t (t.wrap i) (t.wrap j)
   let k := sz o
   if k < 0 then .error .oob else rd buf k.toNat
+
+/-- `mdspan::operator()` over a `layout_transpose<layout_stride>` mapping -/
+def mdspanAtTS {α : Type} (t : IdxT) (m : TSMap) (buf : List α) (i j : Int) : Except Err α := do
+  let o ← m.mapIdx t (t.wrap i) (t.wrap j)
+  let k := sz o
+  if k < 0 then .error .oob else rd buf k.toNat
+
+/-- `mdspan::extents()` / `mdarray::extents()`: `_map.extents()`, the extents object stored in the mapping (a copy of the
+    one the mapping was constructed from) -/
+def mdspanExtents (e : Ext) : Ext := e
 
 /-- `mdspan::size()`: `static_cast<size_type>(extents().fwd_prod_of_extents(rank()))` -/
 def mdspanSize (t : IdxT) (e : Ext) : Except Err Int := do
@@ -424,6 +513,77 @@ def mdarrayAtStride (t : IdxT) (m : StrideMap) (idx : List Int) : Except Err (In
   let n ← m.reqSpan t
   let x ← mdspanAtStride t m (List.range (sz n).toNat) idx
   pure (sz n, x)
+
+/-- `mdarray::size()`: `size_type(extents().fwd_prod_of_extents(rank()))` (the same expression as `mdspan::size()`) -/
+def mdarraySize (t : IdxT) (e : Ext) : Except Err Int := do
+  let p ← e.fwdProd t e.pat.length
+  pure (t.toUnsigned.wrap p)
+
+/-- `mdarray::empty()`: `size() == 0` -/
+def mdarrayEmpty (t : IdxT) (e : Ext) : Except Err Bool := do
+  let n ← mdarraySize t e
+  pure (n == 0)
+
+/-! ### mdarray constructors: the contents of the container after construction -/
+
+/-- the container type of an `mdarray` -/
+inductive Ctr where
+  /-- constructible from `size_t` and from `(size_t, value_type)`: `static_vector<int, cap>` -/
+  | sized (cap : Nat)
+  /-- `etl::array<int, n>` (`is_etl_array`): the `return {}` / `value_to_array` branches -/
+  | arr (n : Nat)
+  deriving Repr, DecidableEq
+
+/-- the lambda of `mdarray(mapping)` (reached also from `mdarray(extents)` and `mdarray(exts...)`):
+    `container_type(static_cast<size_t>(_map.required_span_size()))` (value-initialised elements;
+    `TETL_PRECONDITION(n <= capacity())` in `static_vector`) or `return {}` -/
+def ctrOfSize (k : Ctr) (req : Int) : Except Err (List Int) :=
+  match k with
+  | .sized cap => if (sz req).toNat ≤ cap then .ok (List.replicate (sz req).toNat 0) else .error (.pre "capacity")
+  | .arr n => .ok (List.replicate n 0)
+
+/-- the lambda of `mdarray(mapping, value)` (reached also from `mdarray(extents, value)`):
+    `container_type(static_cast<size_t>(_map.required_span_size()), val)` or
+    `value_to_array<element_type, container_type().size()>(val)` -/
+def ctrOfValue (k : Ctr) (req : Int) (val : Int) : Except Err (List Int) :=
+  match k with
+  | .sized cap => if (sz req).toNat ≤ cap then .ok (List.replicate (sz req).toNat val) else .error (.pre "capacity")
+  | .arr n => .ok (List.replicate n val)
+
+/-- `mdarray(mapping)` over a layout_left / layout_right mapping -/
+def mdarrayOfMapping (l : Lay) (t : IdxT) (e : Ext) (k : Ctr) : Except Err (List Int) := do
+  let n ← reqSpan l t e
+  ctrOfSize k n
+
+/-- `mdarray(mapping, value)` / `mdarray(extents, value)` -/
+def mdarrayOfValue (l : Lay) (t : IdxT) (e : Ext) (k : Ctr) (val : Int) : Except Err (List Int) := do
+  let n ← reqSpan l t e
+  ctrOfValue k n val
+
+/-- `mdarray(extents | mapping, container const&)` (`_ctr(c)`) and `(…, container&&)` (`_ctr(etl::move(c))`): the container
+    of the mdarray has the contents of the argument -/
+def mdarrayOfContainer (c : List Int) : List Int := c
+
+/-- `mdarray(mapping)` / `mdarray(mapping, value)` over a `layout_stride` mapping -/
+def mdarrayOfMappingStride (t : IdxT) (m : StrideMap) (k : Ctr) : Except Err (List Int) := do
+  let n ← m.reqSpan t
+  ctrOfSize k n
+
+def mdarrayOfValueStride (t : IdxT) (m : StrideMap) (k : Ctr) (val : Int) : Except Err (List Int) := do
+  let n ← m.reqSpan t
+  ctrOfValue k n val
+
+/-- `mdarray::operator()(indices...)` on a given container:
+    `_ctr[static_cast<size_t>(_map(static_cast<index_type>(indices)...))]` -/
+def mdarrayRead {α : Type} (l : Lay) (t : IdxT) (e : Ext) (ctr : List α) (idx : List Int) : Except Err α := do
+  let o ← mapIdx l t e (idx.map t.wrap)
+  let k := sz o
+  if k < 0 then .error .oob else rd ctr k.toNat
+
+def mdarrayReadStride {α : Type} (t : IdxT) (m : StrideMap) (ctr : List α) (idx : List Int) : Except Err α := do
+  let o ← m.mapIdx t (idx.map t.wrap)
+  let k := sz o
+  if k < 0 then .error .oob else rd ctr k.toNat
 
 /-! ## span -/
 
